@@ -33,3 +33,54 @@ CONTRACTS = {
                             'implies(h > k, sum(b, lo, h) == sum(a, lo, h) - a[k] + v)'])},
     ),
 }
+
+# ---- the same for the ghost dot(a, b, lo, hi) = sum_{lo <= j < hi} a[j]*b[j]
+SRC_DOT_B = '''
+def lemma(a, b, k, v, lo, hi):
+    c = list(b)
+    c[k] = v
+    for h in range(lo, hi):
+        pass
+    return 0
+'''
+SRC_DOT_A = '''
+def lemma(a, b, k, v, lo, hi):
+    c = list(a)
+    c[k] = v
+    for h in range(lo, hi):
+        pass
+    return 0
+'''
+CONTRACTS.update({
+    'lemma.dot_frame_second': dict(
+        props=['C16'], no_sum_frame=True,
+        source=SRC_DOT_B, args=OD([('a', V), ('b', V), ('k', 'int'), ('v', 'real'), ('lo', 'int'), ('hi', 'int')]), returns='int',
+        requires=['0 <= k', 'k < len(b)', 'lo <= hi', 'k < lo or k >= hi'],
+        ensures=['dot(a, c, lo, hi) == dot(a, b, lo, hi)'],
+        loops={0: dict(inv=['dot(a, c, lo, h) == dot(a, b, lo, h)'])},
+    ),
+    'lemma.dot_frame_first': dict(
+        props=['C16'], no_sum_frame=True,
+        source=SRC_DOT_A, args=OD([('a', V), ('b', V), ('k', 'int'), ('v', 'real'), ('lo', 'int'), ('hi', 'int')]), returns='int',
+        requires=['0 <= k', 'k < len(a)', 'lo <= hi', 'k < lo or k >= hi'],
+        ensures=['dot(c, b, lo, hi) == dot(a, b, lo, hi)'],
+        loops={0: dict(inv=['dot(c, b, lo, h) == dot(a, b, lo, h)'])},
+    ),
+})
+
+CONTRACTS.update({
+    # dot(a, b, lo, hi) == a[lo]*b[lo] + dot(a, b, lo+1, hi)   for hi > lo   (induction on hi, from the top-unfolding alone)
+    'lemma.dot_unfold_low': dict(
+        props=['C16'], no_sum_frame=True,
+        source='''
+def lemma(a, b, lo, hi):
+    for h in range(lo + 1, hi):
+        pass
+    return 0
+''',
+        args=OD([('a', V), ('b', V), ('lo', 'int'), ('hi', 'int')]), returns='int',
+        requires=['lo < hi'],
+        ensures=['dot(a, b, lo, hi) == a[lo] * b[lo] + dot(a, b, lo + 1, hi)'],
+        loops={0: dict(inv=['dot(a, b, lo, h) == a[lo] * b[lo] + dot(a, b, lo + 1, h)'])},
+    ),
+})
